@@ -85,6 +85,10 @@ mech("oneof-flatten-codec",
   ("C05","json/oneof_flatten/*",J5,None,"*/disc"),("C05","json/*/ctx=disc_flatten/*",J5,None,"*/disc"),
   ("C07","tstype/oneof_flatten/*",["undeclared-property","missing-property","wrong-type","literal-mismatch"],"role:{*/?,/msg:dvar,/ovar(*,/}"),("C07","tstype/*/ctx=disc_flatten/*",["undeclared-property","missing-property","wrong-type","literal-mismatch"],"role:{*/?,/msg:dvar,/ovar(*,/}")])
 
+mech("ts-flattened-variant-ignores-nullable",
+ "TypeScript generators: a nullable field of a message that is a FLATTENED oneof variant is declared without `| null` in the flattened union member, while the Go codecs write null for it",
+ [("C07","tstype/oneof_flatten/message/variants-with-codecs*",["null-not-allowed"],"role:/ovar(*")])
+
 mech("enum-value-not-applied",
  "enum_value custom JSON strings are only attached to the enum type's MarshalJSON, which protojson never calls: messages still carry proto enum names while OpenAPI and TypeScript publish the custom strings",
  [("C04","codec/enum_value/*",["canon-decode-error","canon-changed"],None),("C05","json/enum_value/*",J5,None),
